@@ -452,7 +452,8 @@ class Gen:
         if k == "method":
             recv, m, args = x[1], x[2], x[3]
             if m == "fail" and recv[0] == "ctor" and recv[1].endswith("Snafu") and not args:
-                return "(VC \"Err\" [VC %s []])" % cstr(recv[1][:-5])
+                # the snafu context selector XSnafu builds the variant Error::X
+                return "(VC \"Err\" [VC %s []])" % cstr("Error::" + recv[1][:-5])
             if recv[0] == "var" and recv[1] in self.effects:
                 raise Fail("effect call %s.%s used as a value" % (recv[1], m))
             if m == "clone" and not args:
